@@ -3,6 +3,8 @@
 # G-var LRUs, and the end-to-end consequence on fresh indexes.
 import itertools
 import random
+import shutil
+import tempfile
 import time
 import traceback
 from collections import Counter
@@ -151,9 +153,16 @@ def end_to_end(rng, stats, out, n):
         K = K.group()
         members = TH.lru_variations(K)
         results = []
+        anchor_mode = rng.random() < 0.6
+        mem = rng.random() < 0.7
         for first in members:
-            t = Traph(folder=None, default_webentity_creation_rule=RX[default],
-                      webentity_creation_rules={v: RX["path1"] for v in TH.lru_variations(site)} if rules else {})
+            anchors = TH.lru_variations(site)
+            if anchor_mode:
+                # rules anchored on the bare (non-www) forms only: the www forms are reached through them
+                fewest = min(v.count(b"|h:") for v in anchors)
+                anchors = [v for v in anchors if v.count(b"|h:") == fewest]
+            t = Traph(folder=None if mem else tempfile.mkdtemp(prefix="vt17", dir=None), default_webentity_creation_rule=RX[default],
+                      webentity_creation_rules={v: RX["path1"] for v in anchors} if rules else {})
             suffix = (site + path)[len(K):]
             order = [first] + [x for x in members if x != first]
             created = []
@@ -164,6 +173,10 @@ def end_to_end(rng, stats, out, n):
             ids = {n_.webentity() for n_, l in t.webentity_prefix_iter() if l in set(members)}
             results.append((tuple(pre), len(ids)))
             stats["C17_end_to_end_indexes"] += 1
+            folder = t.folder
+            t.close()
+            if folder:
+                shutil.rmtree(folder, ignore_errors=True)
         if len(set(results)) != 1 or results[0][1] != 1:
             out.append(D(["C17"], "webentity-depends-on-first-variation", site=site, K=K, results=[list(r[0]) for r in results][:4],
                          ids=[r[1] for r in results]))
